@@ -23,13 +23,17 @@ PROGS = [
     {"clock": "int", "cap": 50, "rep": {"start": 0, "warmup": 0, "length": 10},
      "root": [["rel", 4, 0, 5], ["rel", 4, 1, 7], ["rel", 10, 2, 5], ["rel", 10, 3, 1]],
      "nodes": [[["rel", 4, 1, 5]], [], [["now", 3, 5]], [["rel", 1, 1, 5]]]},
+    # variant: replication that does not start at time zero (end time != run length)
+    {"clock": "float", "cap": 50, "rep": {"start": fx(100.0), "warmup": fx(2.5), "length": fx(10.0)},
+     "root": [["rel", fx(1.0), 0, 5]],
+     "nodes": [[["rel", fx(3.0), 1, 5]], [["rel", fx(3.0), 2, 5]], [["rel", fx(5.0), 3, 5]], []]},
 ]
-BOUNDS = [[fx(4.0), fx(8.5)], [4, 9]]
+BOUNDS = [[fx(4.0), fx(8.5)], [4, 9], [fx(104.0), fx(108.5)]]
 ALPHABET = ["init", "start", "step", "stop", "rut0", "rut1", "ruti0", "ruti1", "endrep", "cleanup"]
 
 RULE = ("(A) ALL command sequences over the 10-letter alphabet {initialize, start, step, stop, run_up_to(t1|t2), "
         "run_up_to_including(t1|t2), end_replication, cleanup} up to length 4 (quick) / 6 (thorough) on the float model and 3 / 5 on the int model plus Hypothesis "
-        "sequences of length <= 10, on two fixed models (float clock: events at 1,4,7 and 12 beyond the end 10, warm-up "
+        "sequences of length <= 10, on three fixed models (a float-clock replication that starts at 100; float clock: events at 1,4,7 and 12 beyond the end 10, warm-up "
         "2.5; int clock: ties and two events at exactly the end); after each command the harness waits for structural "
         "quiescence. Oracle: protocol model from the docstrings (accepted/refused with DSOLError, resulting run and "
         "replication state, clock, number of pending events) + notification grammar (START_REPLICATION at most once "
@@ -60,15 +64,15 @@ def budget(tier):
 def strategy(tier):
     body = st.lists(st.sampled_from(ALPHABET), min_size=1, max_size=10 if tier == "quick" else 18)
     cmds = st.one_of(body, body.map(lambda b: ["init"] + b), body.map(lambda b: ["init"] + b))
-    return st.fixed_dictionaries({"variant": st.integers(0, 1), "cmds": cmds})
+    return st.fixed_dictionaries({"variant": st.integers(0, 2), "cmds": cmds})
 
 
 def enumerate_cases(tier):
     maxlen = 4 if tier == "quick" else 6
     out = []
-    for variant in (0, 1):
+    for variant in (0, 1, 2):
         for n in range(1, maxlen + 1):
-            if variant == 1 and n > (3 if tier == "quick" else 5):
+            if variant >= 1 and n > (3 if tier == "quick" else 5):
                 continue
             for seq in itertools.product(ALPHABET, repeat=n):
                 out.append({"variant": variant, "cmds": list(seq)})
